@@ -1,6 +1,7 @@
 mod driver;
 mod engine;
 mod evm;
+mod http;
 mod observe;
 mod ops;
 mod par;
@@ -41,6 +42,23 @@ fn main() {
         driver::configure(&network);
         props::c02::bless(&network);
         driver::cleanup_scratch();
+        return;
+    }
+    if args[1] == "child-start" {
+        props::c20::child_main(&args[2..]);
+        return;
+    }
+    if args[1] == "httpbench" {
+        driver::configure("regtest");
+        let dir = driver::fresh_dir("hb");
+        let port = http::free_port();
+        let srv = http::Server::start(http::config("regtest", &dir, port, Some(("u", "p")), true)).expect("start");
+        for (m, p) in [("eth_blockNumber", "[]"), ("brc20_mine", "[1,1]"), ("eth_chainId", "[]"), ("brc20_initialise", "[\"0x1111111111111111111111111111111111111111111111111111111111111111\",1,0]"), ("eth_call", "[{\"to\":\"0x0000000000000000000000000000000000000001\",\"data\":\"0x00\"}]")] {
+            let t = std::time::Instant::now();
+            let r = http::post(port, &format!("{{\"jsonrpc\":\"2.0\",\"id\":1,\"method\":\"{}\",\"params\":{}}}", m, p), &[http::basic("u", "p")]);
+            println!("{} {:?} -> {:?}", m, t.elapsed(), r.map(|x| x.body.chars().take(100).collect::<String>()));
+        }
+        srv.stop();
         return;
     }
     if args[1] == "bench" {
